@@ -193,40 +193,69 @@ def get_spec(out, data):
 
 
 # ---- strategies -------------------------------------------------------------------------------
+def digits(code: int, base: int, n: int) -> list:
+    """n base-`base` digits of code (least significant first) -- one Hypothesis draw instead of n."""
+    outd = []
+    for _ in range(n):
+        code, d = divmod(code, base)
+        outd.append(d)
+    return outd
+
+
+def pick_distinct(code: int, items, k: int) -> list:
+    """k distinct items selected by a mixed-radix code (code 0 = the first k items in order)."""
+    pool = list(items)
+    res = []
+    for _ in range(k):
+        code, d = divmod(code, len(pool))
+        res.append(pool.pop(d))
+    return res
+
+
+BIG = 2**40
+
+
 @st.composite
 def spec_ast(draw, names=None, min_inputs=0, n_out=None, none_one_in=4, min_orank=1):
-    r_out = draw(st.sampled_from([r for r in [1, 2, 2, 3, 3, 4] if r >= min_orank]))
-    out_idx = draw(st.lists(st.sampled_from(IDX_NAMES), min_size=r_out, max_size=r_out, unique=True))
+    head = digits(draw(st.integers(0, BIG)), 6, 3)
+    r_outs = [r for r in [2, 3, 1, 2, 3, 4] if r >= min_orank]
+    r_out = r_outs[head[0] % len(r_outs)]
+    out_idx = pick_distinct(draw(st.integers(0, 8 * 7 * 6 * 5 - 1)), IDX_NAMES, r_out)
     if n_out is None:
-        n_out = draw(st.sampled_from([1, 1, 2]))
-    n_in = draw(st.sampled_from([n for n in [0, 1, 2, 2, 3, 3] if n >= min_inputs]))
+        n_out = [1, 1, 2][head[1] % 3]
+    n_ins = [n for n in [2, 0, 1, 2, 3, 3] if n >= min_inputs]
+    n_in = n_ins[head[2] % len(n_ins)]
     if names is None:
-        names = draw(st.lists(st.sampled_from(ARR_NAMES), min_size=n_in + n_out, max_size=n_in + n_out, unique=True))
+        names = pick_distinct(draw(st.integers(0, BIG)), ARR_NAMES, n_in + n_out)
     inputs = []
     for t in range(n_in):
-        rank = draw(st.integers(1, 3))
-        supply = iter(draw(st.permutations(out_idx)))
-        axes = []
-        for _ in range(rank):
-            axes.append(None if draw(st.integers(0, none_one_in - 1)) == 0 else next(supply, None))
+        code = draw(st.integers(0, BIG))
+        code, rank0 = divmod(code, 3)
+        rank = [2, 1, 3][rank0]
+        code, permcode = divmod(code, 24)
+        supply = iter(pick_distinct(permcode, out_idx, len(out_idx)))
+        axes = [None if (d % none_one_in) == none_one_in - 1 else next(supply, None) for d in digits(code, 16, rank)]
         inputs.append({"name": names[t], "axes": axes})
     outputs = [{"name": names[n_in + u], "axes": list(out_idx)} for u in range(n_out)]
     return {"inputs": inputs, "outputs": outputs}
 
 
-ws_strategy = st.one_of(st.none(), st.lists(st.sampled_from([0, 0, 1, 1, 2, 3]), min_size=1, max_size=14))
+ws_strategy = st.one_of(
+    st.none(), st.integers(0, 6**10 - 1).map(lambda c: [[0, 0, 1, 1, 2, 3][d] for d in digits(c, 6, 10)])
+)
 
 
 @st.composite
 def spec_case(draw, **kw):
     ast = draw(spec_ast(**kw))
+    misc = digits(draw(st.integers(0, BIG)), 4, 9)
     return {
         "spec": ast,
         "ws": draw(ws_strategy),
-        "via": draw(st.sampled_from(["ctor", "string"])),
-        "sizes": {ix: draw(st.integers(1, 4)) for ix in ast["outputs"][0]["axes"]},
-        "colon": draw(st.lists(st.integers(1, 4), min_size=1, max_size=4)),
-        "picks": draw(st.lists(st.integers(0, 11), min_size=4, max_size=4)),
+        "via": ["ctor", "string"][misc[8] % 2],
+        "sizes": {ix: 1 + misc[p] for p, ix in enumerate(ast["outputs"][0]["axes"])},
+        "colon": [1 + d for d in misc[4:8]],
+        "picks": digits(draw(st.integers(0, 12**4 - 1)), 12, 4),
     }
 
 
@@ -506,21 +535,25 @@ def rewrite_case(draw):
     base = draw(spec_case())
     ast = base["spec"]
     names = [a["name"] for a in ast["inputs"] + ast["outputs"]]
-    kind = draw(st.sampled_from(["subset", "subset", "swap", "nomatch", "empty"]))
+    d = digits(draw(st.integers(0, BIG)), 5, 12)
+    kind = ["subset", "swap", "subset", "nomatch", "empty"][d[0]]
+    order = pick_distinct(draw(st.integers(0, 120 * 6 - 1)), names, len(names))
+    targets = pick_distinct(draw(st.integers(0, BIG)), FRESH_NAMES, len(FRESH_NAMES))
     renames = {}
     if kind == "subset":
-        chosen = draw(st.lists(st.sampled_from(names), min_size=1, max_size=len(names), unique=True))
-        targets = draw(st.lists(st.sampled_from(FRESH_NAMES), min_size=len(chosen), max_size=len(chosen), unique=True))
-        renames = dict(zip(chosen, targets))
+        n = 1 + (d[1] + 5 * d[2]) % len(names)
+        renames = dict(zip(order[:n], targets))
     elif kind == "swap" and len(names) >= 2:
-        two = draw(st.lists(st.sampled_from(names), min_size=2, max_size=2, unique=True))
-        renames = {two[0]: two[1], two[1]: two[0]}
+        renames = {order[0]: order[1], order[1]: order[0]}
     if kind != "empty":
-        for k in draw(st.lists(st.sampled_from(["nope", "s", "a_", "foo.", "i"] + IDX_NAMES), max_size=2, unique=True)):
+        stray = ["nope", "s", "a_", "foo.", "i"] + IDX_NAMES
+        for t in range(d[3] % 3):
+            k = stray[(d[4 + t] + 5 * d[6 + t]) % len(stray)]
             if k not in names:
-                renames[k] = draw(st.sampled_from(FRESH_NAMES + ["a", "b"]))
+                renames[k] = (FRESH_NAMES + ["a", "b"])[(d[8 + t] + 5 * d[10 + t]) % (len(FRESH_NAMES) + 2)]
     base["renames"] = renames
-    base["new_axes"] = draw(st.lists(st.sampled_from(FRESH_IDX + IDX_NAMES), min_size=1, max_size=2, unique=True))
+    ax = pick_distinct(draw(st.integers(0, 11 * 10 - 1)), FRESH_IDX + IDX_NAMES, 2)
+    base["new_axes"] = ax[: 1 + d[9] % 2] if d[9] < 4 else ax
     return base
 
 
@@ -984,21 +1017,21 @@ def body_fuzz(data) -> Outcome:
 # ------------------------------------------------------------------------------------------------
 def campaigns(tier):
     camps = [
-        Campaign("parse", body_parse, spec_case(), quick=4000, thorough=120000,
+        Campaign("parse", body_parse, spec_case(), quick=3200, thorough=120000,
                  describe="print with drawn whitespace -> from_string vs constructors; str/round trip; accessors"),
-        Campaign("shape", body_shape, spec_case(), quick=2500, thorough=60000,
+        Campaign("shape", body_shape, spec_case(), quick=2000, thorough=60000,
                  describe="shape()/mask reference; single-fault shape dictionaries must raise ValueError"),
-        Campaign("keys", body_keys, spec_case(), quick=2000, thorough=40000,
+        Campaign("keys", body_keys, spec_case(), quick=1600, thorough=40000,
                  describe="output_key / input_keys over every linear index; denotation on NumPy arrays"),
         Campaign("keys-exhaustive", body_keys_exhaustive, enumerate=enum_key_shapes, quick=0, thorough=0, exhaustive=True,
                  describe="output_key/input_keys/shape_to_strides for every shape of rank 0-4 with sizes 1-4"),
-        Campaign("rewrite", body_rewrite, rewrite_case(), quick=2500, thorough=60000,
+        Campaign("rewrite", body_rewrite, rewrite_case(), quick=2000, thorough=60000,
                  describe="rename (subset, swap, no match, empty) and add_axes (new, duplicate, None)"),
-        Campaign("lists", body_lists, list_case(), quick=2500, thorough=60000,
+        Campaign("lists", body_lists, list_case(), quick=2000, thorough=60000,
                  describe="validate_consistent_axes / mapspec_axes / mapspec_dimensions on chains of 1-3 specs"),
-        Campaign("malformed", body_malformed, malformed_case(), quick=4000, thorough=100000,
+        Campaign("malformed", body_malformed, malformed_case(), quick=3200, thorough=100000,
                  describe="single-mutation malformed specs through constructors and from_string"),
-        Campaign("strings", body_strings, string_case(), quick=4000, thorough=150000,
+        Campaign("strings", body_strings, string_case(), quick=3200, thorough=150000,
                  describe="token soup and edited valid strings: laws on every accepted string"),
     ]  # fmt: skip
     if tier == "thorough":
